@@ -148,6 +148,7 @@ def gen_case(rng, max_ops):
     arg = 500
     thr = rng.choice([0.0, 0.3, 0.6])          # how often a second thread is used
     p_destroy = rng.choice([0.0, 0.02, 0.08])  # early destruction per step
+    p_batch = rng.choice([0.0, 0.2, 0.2, 0.6])  # accesses grouped inside one consumer coroutine
     pending = False
     ops = 0
     after_end = 0
@@ -189,6 +190,25 @@ def gen_case(rng, max_ops):
             k = rng.choice(fl)
             lines.append("%s %d" % ("tres" if rng.random() < thr else "res", k))
             sim.resolve(k)
+            continue
+        # a batch: one consumer coroutine makes several accesses in a row (aggregate used from inside a coroutine)
+        if rng.random() < p_batch:
+            accs = []
+            for _ in range(rng.randint(2, 9)):
+                probe = sim.clone()
+                res, _ = probe.access()
+                if res == "pending":
+                    accs.append("%s:%d" % (rng.choice("cf"), arg))
+                    arg += 1
+                    sim.access()
+                    pending = True
+                    break
+                accs.append("%s:%d" % (rng.choice("nncccfw" + ("i" if mode == "v" else "")), arg))
+                arg += 1
+                sim.access()
+                if res in ("end", "exc"):
+                    break
+            lines.append("batch " + " ".join(accs))
             continue
         # an access
         probe = sim.clone()
@@ -268,7 +288,7 @@ class AggSuite(Suite):
         hdr = case["lines"][0].split()
         n = int(hdr[4])
         vals = sum(1 for l in out for w in l.split() if w.startswith("v:") or w.startswith("got=v:"))
-        special = any(l.split()[0] in ("res", "tres", "bnext", "destroy") for l in case["lines"][1:]) or \
+        special = any(l.split()[0] in ("res", "tres", "bnext", "destroy", "batch") for l in case["lines"][1:]) or \
             any("exc:" in l for l in out)
         return (n >= 2 and vals >= 3) or special
 
@@ -277,6 +297,7 @@ class AggSuite(Suite):
         modes = {"v": 0, "a": 0}
         results = {"v": 0, "end": 0, "exc": 0, "pending": 0}
         early = drained = 0
+        instyles = {}
         for c in cases:
             hdr = c["lines"][0].split()
             modes[hdr[3]] = modes.get(hdr[3], 0) + 1
@@ -289,6 +310,9 @@ class AggSuite(Suite):
             for l in c["lines"][1:-1]:
                 k = l.split()[0]
                 ops[k] = ops.get(k, 0) + 1
+                if k == "batch":
+                    for a in l.split()[1:]:
+                        instyles[a[0]] = instyles.get(a[0], 0) + 1
                 if k == "destroy":
                     early += 1
                     drained += 1 if len(l.split()) > 1 else 0
@@ -297,11 +321,12 @@ class AggSuite(Suite):
                     w = w[4:] if w.startswith("got=") else w
                     if w.startswith("v:"):
                         results["v"] += 1
-                    elif w in ("end", "pending") and l.split()[0] in ACCESS + ("res", "tres"):
+                    elif w in ("end", "pending") and l.split()[0] in ACCESS + ("res", "tres", "batch"):
                         results[w] += 1
                     elif w.startswith("exc:"):
                         results["exc"] += 1
         return {"ops": ops, "sources_per_case": nsrc, "source_kinds": kinds, "modes": modes, "results": results,
+                "accesses_inside_one_consumer_coroutine(n next,i iterator,c co_await,f future+co_await,w future blocking)": instyles,
                 "early_destructions": early, "destructions_waiting_for_inflight_sources": drained}
 
     def oracle(self, case, out):
@@ -384,6 +409,17 @@ class AggSuite(Suite):
             args_seen = sorted((int(m.group(1)), int(m.group(2))) for m in
                                (re.match(r"a(\d+)=(\d+)$", e) for e in evs) if m)
             expect_args = []
+            if w[0] == "batch" and head[0] == "batch":
+                results = [x for x in head[1:] if not x.startswith("p=")]
+                for acc, r in zip(w[1:], results):
+                    if mode == "a" and r != "nomore" and ended_result is None:
+                        a = int(acc[2:])
+                        if first_access:
+                            expect_args += [(k, a) for k in range(n)]
+                        elif last_src is not None:
+                            expect_args.append((last_src, a))
+                    first_access = False
+                    on_result(r, op)
             if w[0] in ACCESS and head[0] == w[0] and len(head) >= 2:
                 r = head[1]
                 if mode == "a" and r != "nomore" and ended_result is None:
@@ -456,7 +492,7 @@ class StressSuite(Suite):
                     pre = (body * rng.randint(2, 6))[:40] + tail
                 scripts.append((pre, cyc))
             limit = rng.choice([20, 100, 300, 800])
-            style = rng.choice([0, 0, 2] + ([1] if mode == "v" else []))
+            style = rng.choice([0, 0, 2, 3, 3, 4] + ([1] if mode == "v" else []))
             lines = [("case 0 agg %s %d %s" % (mode, ns, " ".join(script_text(*x) for x in scripts))).rstrip(),
                      "stress %d %d %d" % (limit, style, rng.randint(1, 10 ** 6))]
             if rng.random() < 0.5:
@@ -483,7 +519,7 @@ class StressSuite(Suite):
                 f = dict(FACT_RE.findall(o[0]))
                 res[f.get("result", "?")] = res.get(f.get("result", "?"), 0) + 1
                 values += int(f.get("got", 0)) if f.get("got", "0").isdigit() else 0
-        return {"sources_per_case": nsrc, "access_style(0 next,1 iterator,2 future)": styles, "results": res,
+        return {"sources_per_case": nsrc, "access_style(0 next,1 iterator,2 future,3 coroutine co_await,4 coroutine blocking next)": styles, "results": res,
                 "values_consumed": values,
                 "destroyed_with_resolver_threads_running": sum(1 for c in cases if c["lines"][2].startswith("sdestroy"))}
 
